@@ -425,7 +425,7 @@ PROPS["C02"] = dict(
 )
 
 PROPS["C20"] = dict(
-    harness="c20_options", flavour="asan", env={"VERIF_MAX_SHRINK_EVALS": "100"}, extra_targets={"asan": ["gmgpolar_cli"]},
+    harness="c20_options", flavour="asan", env={"VERIF_MAX_SHRINK_EVALS": "100"}, extra_targets={"asan": ["gmgpolar_cli"], "rel": ["gmgpolar_cli"]},
     quick=dict(workers=16, cases=1600, min_nontrivial=300, budget_s=900),
     thorough=dict(workers=16, cases=30000, min_nontrivial=5000, budget_s=3300,
                   fuzz=dict(target="f20_options", runs=20000, jobs=8, max_len=128, budget_s=3000)),
